@@ -235,7 +235,7 @@ class GenV:
 class CoroV:
     """coroutine object: function + bound arguments, run when awaited / scheduled"""
 
-    __slots__ = ("func", "args", "kwargs", "started", "state")
+    __slots__ = ("func", "args", "kwargs", "started", "state", "body_ids")
 
     def __init__(self, func, args, kwargs):
         self.func = func
@@ -243,6 +243,7 @@ class CoroV:
         self.kwargs = kwargs
         self.started = False
         self.state = None
+        self.body_ids = ()  # functions under verification while this coroutine runs
 
 
 class StructV:
